@@ -183,7 +183,9 @@ def spec_violation(case, impl, replies):
 
     def decode(p, hs):
         ce = hs.get("content-encoding")
-        if ce is None or p["body"] == b"":
+        # a response that cannot carry a body (HEAD, 1xx/204/304) has nothing to decode; everywhere else an
+        # empty body under `Content-Encoding: gzip` is NOT a gzip stream and a decoding client fails on it
+        if ce is None or p["delim"] == "noBody":
             return p["body"]
         if handler_ce and not (p["status"] == 500 and (want["status"] != 500 or want["rejected"])):
             return p["body"]
